@@ -76,9 +76,42 @@ SEQS = [{"seq": T(F32, (3,))}, {"seq": T(I64, None)}, {"seq": T(BOOL, (2, 2))}]
 SEQ_RANK0 = {"seq": T(F32, ())}  # elements of rank 0: `()` is a known shape, not an unknown one
 ZERO_LEN = [T(F32, (0,)), T(I64, (0, 2)), T(F32, (0, 0))]  # zero-length scan axes
 # how Loop's trip count / condition and If's condition are given: an argument, omitted, a constant
-LOOP_M = ["arg", "none", "const3", "const0"]
-LOOP_COND = [None, "constTrue", "constFalse"]
-IF_COND = ["arg", "constTrue", "constFalse"]
+LOOP_M = ["arg", "none", "const3", "const0", "computed3", "init3", "init0"]
+LOOP_COND = [None, "constTrue", "constFalse", "computedTrue", "initFalse"]
+# a compile-time-known value can come from every value source: `op.const`, the Constant constructor, a value computed
+# from constants by value propagation, an initializer
+VALUE_SOURCES = ["const", "constant", "computed", "computed2", "init"]
+IF_COND = ["arg"] + [f"{src_}{tv_}" for src_ in VALUE_SOURCES for tv_ in ("True", "False")]
+
+
+def known_value(env, op, src, value, shape1=False):
+    """A Var whose value is known when the constructor runs: bool `value` (or an int64 trip count), from source `src`."""
+    np = env.np
+    if isinstance(value, bool):
+        arr = np.array([value]) if shape1 else np.array(value)
+    else:
+        arr = np.array(value, np.int64)
+    if src == "const":
+        return op.const(arr)
+    if src == "constant":
+        return op.constant(value=arr)
+    if src == "init":
+        return env.graph.initializer(arr)
+    if isinstance(value, bool):
+        if src == "computed":  # not(not value)
+            return op.not_(op.const(np.array([not value]) if shape1 else np.array(not value)))
+        k = op.const(np.array([2] if shape1 else 2, np.int64))  # computed2: a comparison of constants
+        return op.equal(k, op.const(np.array([2] if shape1 else 2, np.int64))) if value else op.less(k, k)
+    return op.add(op.const(np.array(value - 1, np.int64)), op.const(np.array(1, np.int64)))
+
+
+def split_known(tag):
+    """'computedTrue' -> ('computed', True); 'init3' -> ('init', 3)"""
+    for src in sorted(VALUE_SOURCES, key=len, reverse=True):
+        if tag.startswith(src):
+            rest = tag[len(src):]
+            return src, (rest == "True") if rest in ("True", "False") else int(rest)
+    raise ValueError(tag)
 
 
 class _Types:
@@ -576,17 +609,24 @@ def run_real(env: Env, case, steps=()):
         ic = case.get("if_cond", "arg")
         if ic == "arg":
             outer["cond"] = env.spox.argument(env.ts.Tensor(np.bool_, ()))
-        else:  # a constant condition: one branch can never execute; both are still traced exactly once
-            consts["cond"] = op.const(np.array(ic == "constTrue"))
+        else:  # a compile-time-known condition: one branch can never execute; both are still traced exactly once
+            with warnings.catch_warnings():
+                warnings.simplefilter("ignore")
+                consts["cond"] = known_value(env, op, *split_known(ic))
     elif ctor == "loop":
         mm = case.get("M", "arg")
         if mm == "arg":
             outer["M"] = env.spox.argument(env.ts.Tensor(np.int64, ()))
-        elif mm != "none":  # constant trip count (3, or 0: the body never executes)
-            consts["M"] = op.const(np.array(3 if mm == "const3" else 0, np.int64))
+        elif mm != "none":  # known trip count (3, or 0: the body never executes)
+            with warnings.catch_warnings():
+                warnings.simplefilter("ignore")
+                consts["M"] = known_value(env, op, *split_known(mm))
         cc = case.get("cond")
         if isinstance(cc, str):
-            consts["cond"] = op.const(np.array([cc == "constTrue"]))
+            with warnings.catch_warnings():
+                warnings.simplefilter("ignore")
+                src_, val_ = split_known(cc)
+                consts["cond"] = known_value(env, op, src_, val_, shape1=True)
         elif cc is not None:
             outer["cond"] = env.operand(cc)
     if case.get("opcont") == "tuple":  # the operand lists as tuples (the parameters are `Sequence[Var]`)
@@ -687,7 +727,10 @@ def run_real(env: Env, case, steps=()):
     # ---- later steps
     if outs is not None and steps:
         node = getattr(outs[0], "_op", None) if outs else None
-        ins = {f"a{i}": v for i, v in enumerate(all_operands) if v.type is not None}
+        ins = {}
+        for i, v in enumerate(all_operands):  # (one Var may sit in several operand slots: one model input)
+            if v.type is not None and not any(v is u for u in ins.values()):
+                ins[f"a{i}"] = v
         with warnings.catch_warnings():
             warnings.simplefilter("ignore")
             outd = {f"o{i}": buildable(env, op, v) for i, v in enumerate(outs)}
@@ -1287,6 +1330,20 @@ def gen_cases(ck, info):
             for n in range(0, 3):
                 if light or ic != "arg":
                     cases.append(finish_case({"mod": mod, "ctor": "if_", "n_if": n, "if_cond": ic}, rng))
+        # FIXED part (not sampled): a condition known at construction time, from every value source, with the branch
+        # that can never execute well-formed / malformed in every way — it is traced once and its TypeError clause holds
+        for ic in IF_COND[1:]:
+            dead = "else_branch" if ic.endswith("True") else "then_branch"
+            for k_bad, badcb in enumerate([None, {"beh": "notCallable", "n": 0, "variant": 1}, {"beh": "nonIterable", "n": 1, "variant": 0},
+                                           {"beh": "hasNonVar", "n": 2, "bad": "int", "pos": 1, "outer": "list"},
+                                           {"beh": "hasNonVar", "n": 2, "bad": "listOfVars", "pos": 0, "outer": "tuple"},
+                                           {"beh": "badArity", "n": 1, "form": "too_many", "container": "list", "natural": 1},
+                                           {"beh": "raises", "n": 1, "variant": 0}]):
+                c = finish_case({"mod": mod, "ctor": "if_", "n_if": 1, "if_cond": ic, "ambient": None, "kwcall": False}, rng, "list")
+                c["cbs"] = {r_: {k_: v_ for k_, v_ in cb_.items() if k_ != "form"} for r_, cb_ in c["cbs"].items()}
+                if badcb is not None:
+                    c["cbs"][dead] = dict(badcb)
+                cases.append(c)
     # ---- every callable FORM x constructor x shipped module (accepted forms and forms Python's call rejects)
     from harness import lib_c19forms as forms
 
